@@ -187,6 +187,38 @@ theorem item_ext {s s' : State} {a k : Nat} (h : Item s a k) (e : Ext s s') : It
     (by have := h.2.2; have := e.cur; omega) (fun g hg _ => e.glab g hg)
 
 
+/-! ### content: the name an item holds -/
+
+/-- at `a` the buffer holds (directly, or through its pointer) a stored name whose labels match
+    the name `n` as names are compared in mode `m` (octet for octet unless `m` is `Standard`) -/
+def NameIs (s : State) (a : Nat) (m : CMode) (n : WName) : Prop :=
+  ∃ q ls, Hop s.octets s.cursor a q ∧ StoredAt s q ls ∧ labelsMatch (effMode m) n.labels ls = true
+
+theorem nameIs_of_reads {s : State} {a : Nat} {m : CMode} {n : WName} {ls : List Label} (h : ReadsAt s a ls)
+    (hm : labelsMatch (effMode m) n.labels ls = true) : NameIs s a m n := by
+  obtain ⟨q, cs', hop, _, hn, _⟩ := h
+  exact ⟨q, ls, hop, nameAtC_forget hn, hm⟩
+
+/-- `NameIs` along any change that keeps the octets from `lo` up to the cursor, does not shrink the
+    cursor and keeps the recorded label starts (all at or above `lo`) -/
+theorem nameIs_frame {s s' : State} {a lo : Nat} {m : CMode} {n : WName} (h : NameIs s a m n)
+    (hg12 : ∀ g ∈ s.gLabels, lo ≤ g)
+    (hpre : ∀ i, lo ≤ i → i < s.cursor → s'.octets[i]? = s.octets[i]?) (hc : s.cursor ≤ s'.cursor)
+    (hg : ∀ g ∈ s.gLabels, g ∈ s'.gLabels) : NameIs s' a m n := by
+  obtain ⟨q, ls, hop, hst, hm⟩ := h
+  have hq : q ∈ s.gLabels := (nameAt_start hst).1
+  refine ⟨q, ls, hop_frame hop hpre hc (hg12 q hq), ?_, hm⟩
+  exact nameAt_frame (lo := lo) hst (fun x hx => hg x hx) (fun x hx => hg12 x hx) hpre hc
+
+theorem nameIs_ext {s s' : State} {a : Nat} {m : CMode} {n : WName} (h : NameIs s a m n) (e : Ext s s') :
+    NameIs s' a m n :=
+  nameIs_frame (lo := 0) h (fun _ _ => Nat.zero_le _) (fun i _ hi => e.pre i hi) e.cur (fun g hg => e.glab g hg)
+
+theorem nameIs_fields {s s' : State} {a : Nat} {m : CMode} {n : WName} (h : NameIs s a m n)
+    (ho : s'.octets = s.octets) (hc : s'.cursor = s.cursor) (hg : s'.gLabels = s.gLabels) : NameIs s' a m n := by
+  unfold NameIs StoredAt GL at h ⊢
+  rw [ho, hc, hg]; exact h
+
 /-! ### what one `add_rr` appends, structurally -/
 
 theorem M.bind_ok_inv {α β} {f : M α} {g : α → M β} {s s' : State} {b : β}
@@ -221,7 +253,11 @@ theorem addRr_item (hint : Hint) (owner : WName) (ty cls ttl : Nat) (rd : List U
     (h : addRr hint owner ty cls ttl rd s = (.ok (), s')) :
     ∃ k, Item s' s.cursor k ∧ s.cursor + k + 10 ≤ s'.cursor ∧
       be16 s'.octets (s.cursor + k + 8) = (s'.cursor - (s.cursor + k + 10)) % 65536 ∧
-      BytesAt s'.octets (s.cursor + k) (u16be ty) := by
+      (BytesAt s'.octets (s.cursor + k) (u16be ty) ∧ BytesAt s'.octets (s.cursor + k + 2) (u16be cls) ∧
+        BytesAt s'.octets (s.cursor + k + 4) (u32be ttl)) ∧
+      (∃ p sB, writeHintedName hint owner { s with gCtx := .owner } = (.ok p, sB) ∧
+        sB.cursor = s.cursor + k ∧ ∀ i, i < sB.cursor → s'.octets[i]? = sB.octets[i]?) ∧
+      NameIs s' s.cursor s.mode owner := by
   rw [addRr_eq] at h
   obtain ⟨_, s1, h1, h⟩ := M.bind_ok_inv h
   obtain ⟨_, s2, h2, h⟩ := M.bind_ok_inv h
@@ -242,10 +278,11 @@ theorem addRr_item (hint : Hint) (owner : WName) (ty cls ttl : Nat) (rd : List U
     | panic => cases h1
     | ok p =>
       simp only [Prod.mk.injEq, true_and] at h1
-      obtain ⟨hwB, _, _, _, _, ⟨ls, hrd, _⟩, hck⟩ := hs.ok p rfl
+      obtain ⟨hwB, hdenB, _, _, _, ⟨ls, hrd, hmtB⟩, hck⟩ := hs.ok p rfl
       have hcurB : s.cursor ≤ sB.cursor := hf.cur
-      simp only at hck hrd hcurB
+      simp only at hck hrd hcurB hmtB hdenB
       have itB : Item sB s.cursor (sB.cursor - s.cursor) := item_of_reads hrd hck (by omega)
+      have nmB : NameIs sB s.cursor s.mode owner := nameIs_of_reads hrd hmtB
       -- the fixed fields
       unfold tryPushU16 at h2 h3
       unfold tryPushU32 at h4
@@ -273,6 +310,22 @@ theorem addRr_item (hint : Hint) (owner : WName) (ty cls ttl : Nat) (rd : List U
         show (writeAt s1.octets s1.cursor (u16be ty))[sB.cursor + i]? = _
         rw [c1] at this ⊢
         exact this
+      have cls4 : BytesAt s4.octets (sB.cursor + 2) (u16be cls) := by
+        intro i hi
+        rw [hl2] at hi
+        rw [e4, pushed_get_lt _ _ _ (by omega), e3]
+        have := bytesAt_writeAt s2.octets s2.cursor (u16be cls) z3 i (by rw [hl2]; exact hi)
+        show (writeAt s2.octets s2.cursor (u16be cls))[sB.cursor + 2 + i]? = _
+        rw [c2] at this ⊢
+        exact this
+      have ttl4 : BytesAt s4.octets (sB.cursor + 4) (u32be ttl) := by
+        intro i hi
+        rw [hl4] at hi
+        rw [e4]
+        have := bytesAt_writeAt s3.octets s3.cursor (u32be ttl) z4 i (by rw [hl4]; exact hi)
+        show (writeAt s3.octets s3.cursor (u32be ttl))[sB.cursor + 4 + i]? = _
+        rw [c3] at this ⊢
+        exact this
       -- the RDATA block
       simp only [M.bind_apply, M.gets_apply] at h
       split at h
@@ -295,7 +348,7 @@ theorem addRr_item (hint : Hint) (owner : WName) (ty cls ttl : Nat) (rd : List U
                 obtain ⟨hsz, hs'⟩ := write_ok_inv _ _ _ _ _ h
                 have hcH : s4.cursor + 2 ≤ sH.cursor := hfr.cur
                 have preH : ∀ i, i < s4.cursor + 2 → sH.octets[i]? = s4.octets[i]? := fun i hi => hfr.pre i hi
-                refine ⟨sB.cursor - s.cursor, ?_, ?_, ?_, ?_⟩
+                refine ⟨sB.cursor - s.cursor, ?_, ?_, ?_, ?_, ⟨p, sB, rfl, by omega, ?_⟩, ?_⟩
                 · -- the item, moved along
                   refine item_move (lo := 0) itB (fun _ _ => Nat.zero_le _) ?_ ?_ ?_
                   · intro i _ hi
@@ -317,11 +370,266 @@ theorem addRr_item (hint : Hint) (owner : WName) (ty cls ttl : Nat) (rd : List U
                   congr 1
                   omega
                 · rw [hs']
-                  show BytesAt (writeAt sH.octets s4.cursor _) _ _
                   rw [show s.cursor + (sB.cursor - s.cursor) = sB.cursor by omega]
-                  intro i hi
-                  rw [hl2] at hi
-                  rw [writeAt_get_lt _ _ _ _ (by omega), preH _ (by omega)]
-                  exact ty4 i (by rw [hl2]; exact hi)
+                  refine ⟨?_, ?_, ?_⟩
+                  · show BytesAt (writeAt sH.octets s4.cursor _) _ _
+                    intro i hi
+                    rw [hl2] at hi
+                    rw [writeAt_get_lt _ _ _ _ (by omega), preH _ (by omega)]
+                    exact ty4 i (by rw [hl2]; exact hi)
+                  · show BytesAt (writeAt sH.octets s4.cursor _) _ _
+                    intro i hi
+                    rw [hl2] at hi
+                    rw [writeAt_get_lt _ _ _ _ (by omega), preH _ (by omega)]
+                    exact cls4 i (by rw [hl2]; exact hi)
+                  · show BytesAt (writeAt sH.octets s4.cursor _) _ _
+                    intro i hi
+                    rw [hl4] at hi
+                    rw [writeAt_get_lt _ _ _ _ (by omega), preH _ (by omega)]
+                    exact ttl4 i (by rw [hl4]; exact hi)
+                · intro i hi
+                  rw [hs']
+                  show (writeAt sH.octets s4.cursor _)[i]? = _
+                  rw [writeAt_get_lt _ _ _ _ (by omega), preH _ (by omega), pre4 _ hi]
+                · -- the content, moved along: fixed fields, RDATA, RDLENGTH written back
+                  obtain ⟨q, ls', hopB, hstB, hmB⟩ := nmB
+                  -- a valid state where RDLENGTH is reserved
+                  have hden1 : ∀ q, p = some q → Den { sB with gCtx := NameCtx.none } q owner :=
+                    fun q hq => den_ext (by constructor <;> simp) (hdenB q hq)
+                  have wB' := winv_ext (s' := { sB with gCtx := NameCtx.none }) hwB (by constructor <;> simp)
+                    rfl rfl rfl rfl
+                  have w1 : WInv s1 := by
+                    rw [← h1]
+                    exact ⟨wB'.c12, wB'.cur_av, wB'.av_size, wB'.g12, wB'.labs, wB'.qn, den_anchorOK hden1, wB'.rd,
+                      wB'.clabs⟩
+                  have hroom2 : (u16be ty).length ≤ s1.available - s1.cursor := by
+                    unfold tryPush at h2
+                    split at h2
+                    · cases h2
+                    · split at h2
+                      · rename_i hh; exact hh
+                      · cases h2
+                  have w2 : WInv s2 := by rw [e2]; exact winv_push w1 _ hroom2
+                  have hroom3 : (u16be cls).length ≤ s2.available - s2.cursor := by
+                    unfold tryPush at h3
+                    split at h3
+                    · cases h3
+                    · split at h3
+                      · rename_i hh; exact hh
+                      · cases h3
+                  have w3 : WInv s3 := by rw [e3]; exact winv_push w2 _ hroom3
+                  have hroom4 : (u32be ttl).length ≤ s3.available - s3.cursor := by
+                    unfold tryPush at h4
+                    split at h4
+                    · cases h4
+                    · split at h4
+                      · rename_i hh; exact hh
+                      · cases h4
+                  have w4 : WInv s4 := by rw [e4]; exact winv_push w3 _ hroom4
+                  -- the stored name, state by state
+                  have st4 : StoredAt s4 q ls' := by
+                    refine nameAt_frame (lo := 0) hstB ?_ (fun _ _ => Nat.zero_le _) (fun i _ hi => pre4 i hi)
+                      (by omega)
+                    intro x hx; show x ∈ s4.gLabels; rw [g4]; exact hx
+                  have stH : StoredAt sH q ls' := by
+                    have stG : StoredAt { s4 with cursor := s4.cursor + 2 } q ls' :=
+                      nameAt_frame (lo := 0) st4 (fun _ hx => hx) (fun _ _ => Nat.zero_le _) (fun _ _ _ => rfl)
+                        (by show s4.cursor ≤ s4.cursor + 2; omega)
+                    exact storedAt_ext hfr stG
+                  have st' := storedAt_patch w4 (u16be ((sH.cursor - s4.cursor - 2) % 65536)) rfl hfr q ls' stH
+                  rw [hs']
+                  refine ⟨q, ls', ?_, st', hmB⟩
+                  -- the hop reads below the old cursor of the name
+                  have hqa := (hop_le hopB).1
+                  cases hopB with
+                  | here hq' hb' hnp =>
+                    refine .here (by show s.cursor < sH.cursor; omega) ?_ hnp
+                    show (writeAt sH.octets s4.cursor _)[s.cursor]? = _
+                    rw [writeAt_get_lt _ _ _ _ (by omega), preH _ (by omega), pre4 _ hq']; exact hb'
+                  | jump hq' hb1 hb2 hp hlt hb3 hnp =>
+                    refine .jump (by show s.cursor + 1 < sH.cursor; omega) ?_ ?_ hp hlt ?_ hnp
+                    · show (writeAt sH.octets s4.cursor _)[s.cursor]? = _
+                      rw [writeAt_get_lt _ _ _ _ (by omega), preH _ (by omega), pre4 _ (by omega)]; exact hb1
+                    · show (writeAt sH.octets s4.cursor _)[s.cursor + 1]? = _
+                      rw [writeAt_get_lt _ _ _ _ (by omega), preH _ (by omega), pre4 _ hq']; exact hb2
+                    · show (writeAt sH.octets s4.cursor _)[_]? = _
+                      rw [writeAt_get_lt _ _ _ _ (by omega), preH _ (by omega), pre4 _ (by omega)]; exact hb3
+
+
+/-- **the owner of a record decodes to the name given**, in every compression mode: after a
+    successful `add_rr` the independent decoder, run on any message that agrees with the buffer
+    below the cursor, reads at the record's start a name with the owner's label count that equals
+    the owner up to ASCII case (octet for octet unless the mode is `Standard`) and occupies exactly
+    the `k` octets the writer wrote -/
+theorem addRr_owner_decodes (hint : Hint) (owner : WName) (ty cls ttl : Nat) (rd : List UInt8) (s s' : State)
+    (hw : WInv s) (hwf : owner.WF) (hh : HintOK s hint owner)
+    (h : addRr hint owner ty cls ttl rd s = (.ok (), s')) (msg : Bytes)
+    (hmsg : ∀ i, i < s'.cursor → msg[i]? = s'.octets[i]?) :
+    ∃ w k, specDecodeName msg s.cursor = some (w, owner.len, k) ∧ s.cursor + k + 10 ≤ s'.cursor ∧
+      w.map lowerU8 = owner.wire.map lowerU8 ∧ (s.mode ≠ .standard → w = owner.wire) := by
+  obtain ⟨k, hit, hlen, _, _, ⟨p, sB, hwn, hcB, hpre⟩, _⟩ := addRr_item hint owner ty cls ttl rd s s' hw hwf hh h
+  have e1 := ext_setCtx s .owner
+  have hwA : WInv { s with gCtx := .owner } := winv_ext hw e1 rfl rfl rfl rfl
+  have hhA : HintOK { s with gCtx := .owner } hint owner := hintOK_ext hh e1 rfl rfl rfl rfl
+  obtain ⟨w, k0, hd, hcase, hexact⟩ := writeHintedName_round_trip hint owner _ hwA hwf hhA p (by rw [hwn])
+  rw [hwn] at hd
+  simp only at hd
+  have hs := writeHintedName_spec hint owner _ hwA hwf hhA
+  rw [hwn] at hs
+  obtain ⟨hwB, _, _, _, _, _, hck⟩ := hs.ok p rfl
+  simp only at hck
+  have hcsB : sB.cursor ≤ sB.octets.size := Nat.le_trans hwB.cur_av hwB.av_size
+  -- the chunk length
+  have hcm : ChunkAt (sB.octets.extract 0 sB.cursor) s.cursor (sB.cursor - s.cursor) :=
+    chunkAt_frame hck (fun i _ h2 => extract_prefix_get _ _ hcsB _ (by omega))
+  have hk0 := specDecodeName_chunk hcm hd
+  subst hk0
+  -- move the decoding to `msg`
+  have hD := (specDecodeName_iff _ _ _ _ _).mp hd
+  have hszB : (sB.octets.extract 0 sB.cursor).size = sB.cursor := by simp; omega
+  have hagree : ∀ i, i < (sB.octets.extract 0 sB.cursor).size → msg[i]? = (sB.octets.extract 0 sB.cursor)[i]? := by
+    intro i hi
+    rw [hszB] at hi
+    rw [extract_prefix_get _ _ hcsB _ hi, hmsg i (by omega), hpre i hi]
+  have hD' : DecodesName msg s.cursor w owner.len (sB.cursor - s.cursor) := ⟨decodes_prefix hagree hD.1, hD.2⟩
+  exact ⟨w, sB.cursor - s.cursor, (specDecodeName_iff _ _ _ _ _).mpr hD', by omega, hcase, hexact⟩
+
+
+theorem be16_of_agree {msg o : Bytes} {i c : Nat} (h : ∀ j, j < c → msg[j]? = o[j]?) (hi : i + 1 < c) :
+    be16 msg i = be16 o i := by
+  unfold be16
+  have a0 := h i (by omega)
+  have a1 := h (i + 1) hi
+  rw [Array.getD_eq_getD_getElem?, Array.getD_eq_getD_getElem?, Array.getD_eq_getD_getElem?,
+    Array.getD_eq_getD_getElem?, a0, a1]
+
+theorem be32_of_agree {msg o : Bytes} {i c : Nat} (h : ∀ j, j < c → msg[j]? = o[j]?) (hi : i + 3 < c) :
+    be32 msg i = be32 o i := by
+  unfold be32
+  simp only [Array.getD_eq_getD_getElem?, h i (by omega), h (i + 1) (by omega), h (i + 2) (by omega), h (i + 3) hi]
+
+/-- **the round trip of one record, in every compression mode.** After a successful `add_rr`, on
+    any message that agrees with the buffer below the cursor, the independent decoder reads at the
+    old cursor: the owner (same label count; equal up to ASCII case, octet for octet unless the mode
+    is `Standard`) on `k` octets, then TYPE, CLASS and TTL as given, then an RDLENGTH that is the
+    number of octets written after it (mod 2¹⁶) -/
+theorem addRr_round_trip (hint : Hint) (owner : WName) (ty cls ttl : Nat) (rd : List UInt8) (s s' : State)
+    (hw : WInv s) (hwf : owner.WF) (hh : HintOK s hint owner)
+    (hty : ty < 65536) (hcls : cls < 65536) (httl : ttl < 4294967296)
+    (h : addRr hint owner ty cls ttl rd s = (.ok (), s')) (msg : Bytes)
+    (hmsg : ∀ i, i < s'.cursor → msg[i]? = s'.octets[i]?) :
+    ∃ w k, specDecodeName msg s.cursor = some (w, owner.len, k) ∧ s.cursor + k + 10 ≤ s'.cursor ∧
+      w.map lowerU8 = owner.wire.map lowerU8 ∧ (s.mode ≠ .standard → w = owner.wire) ∧
+      be16 msg (s.cursor + k) = ty ∧ be16 msg (s.cursor + k + 2) = cls ∧ be32 msg (s.cursor + k + 4) = ttl ∧
+      be16 msg (s.cursor + k + 8) = (s'.cursor - (s.cursor + k + 10)) % 65536 := by
+  obtain ⟨w, k, hd, hk10, hcase, hexact⟩ := addRr_owner_decodes hint owner ty cls ttl rd s s' hw hwf hh h msg hmsg
+  obtain ⟨k', hit, hlen, hb, ⟨t1, t2, t3⟩, ⟨p, sB, hwn, hcB, hpre⟩, _⟩ := addRr_item hint owner ty cls ttl rd s s' hw hwf hh h
+  -- both `k`s are the chunk length
+  have hkk : k = k' := by
+    have hcm : ChunkAt msg s.cursor k' :=
+      chunkAt_frame hit.2.1 (fun i _ h2 => hmsg i (by have := hit.2.2; omega))
+    exact specDecodeName_chunk hcm hd
+  subst hkk
+  refine ⟨w, k, hd, hk10, hcase, hexact, ?_, ?_, ?_, ?_⟩
+  · rw [be16_of_agree hmsg (by omega)]; exact be16_of_bytesAt t1 hty
+  · rw [be16_of_agree hmsg (by omega)]; exact be16_of_bytesAt t2 hcls
+  · rw [be32_of_agree hmsg (by omega)]; exact be32_of_bytesAt t3 httl
+  · rw [be16_of_agree hmsg (by omega)]; exact hb
+
+
+/-- `write_unhinted_name` is `write_hinted_name` without a hint -/
+theorem writeUnhintedName_eq_none (n : WName) : writeUnhintedName n = writeHintedName .none n := by
+  funext s
+  unfold writeUnhintedName writeHintedName
+  simp only [M.bind_apply, M.gets_apply]
+  by_cases h1 : s.mode = .disabled ∨ n.wire.length ≤ 2
+  · rw [if_pos h1, if_neg (by intro ⟨a, b⟩; rcases h1 with h | h; exact a h; omega)]
+  · rw [if_neg h1, if_pos (by constructor; intro h; exact h1 (Or.inl h); omega)]
+    split <;> rfl
+
+/-- the round trip of a name written without a hint (QNAME, names inside RDATA) -/
+theorem writeUnhintedName_round_trip (n : WName) (s : State) (h : WInv s) (hn : n.WF) (p : Option Prior)
+    (hok : (writeUnhintedName n s).1 = .ok p) :
+    ∃ w k, specDecodeName ((writeUnhintedName n s).2.octets.extract 0 (writeUnhintedName n s).2.cursor)
+        s.cursor = some (w, n.len, k) ∧
+      w.map lowerU8 = n.wire.map lowerU8 ∧ (s.mode ≠ .standard → w = n.wire) := by
+  rw [writeUnhintedName_eq_none] at hok ⊢
+  exact writeHintedName_round_trip .none n s h hn trivial p hok
+
+/-- **the round trip of the question, in every compression mode**: after a successful
+    `add_question`'s body, on any message that agrees with the buffer below the cursor, the
+    independent decoder reads at the old cursor the QNAME (same label count, equal up to ASCII case,
+    octet for octet unless the mode is `Standard`) on `k` octets; QTYPE and QCLASS follow -/
+theorem addQuestionBody_round_trip (qn : WName) (qt qc : Nat) (s s' : State) (hw : WInv s) (hwf : qn.WF)
+    (hqt : qt < 65536) (hqc : qc < 65536)
+    (h : addQuestionBody qn qt qc s = (.ok (), s')) (msg : Bytes)
+    (hmsg : ∀ i, i < s'.cursor → msg[i]? = s'.octets[i]?) :
+    ∃ w k, specDecodeName msg s.cursor = some (w, qn.len, k) ∧ s'.cursor = s.cursor + k + 4 ∧
+      w.map lowerU8 = qn.wire.map lowerU8 ∧ (s.mode ≠ .standard → w = qn.wire) ∧
+      be16 msg (s.cursor + k) = qt ∧ be16 msg (s.cursor + k + 2) = qc := by
+  unfold addQuestionBody at h
+  obtain ⟨_, sA, hA, h⟩ := M.bind_ok_inv h
+  obtain ⟨p, sB, hB, h⟩ := M.bind_ok_inv h
+  obtain ⟨_, sC, hC, h⟩ := M.bind_ok_inv h
+  obtain ⟨_, sD, hD, h⟩ := M.bind_ok_inv h
+  obtain ⟨_, sE, hE, hF⟩ := M.bind_ok_inv h
+  simp only [setCtx, M.modify_apply, Prod.mk.injEq, true_and] at hA hC hD
+  subst hA
+  have e1 := ext_setCtx s .qname
+  have wA : WInv { s with gCtx := .qname } := winv_ext hw e1 rfl rfl rfl rfl
+  have hs := writeUnhintedName_spec qn _ wA hwf
+  have hf := frame_writeUnhintedName qn { s with gCtx := .qname }
+  obtain ⟨w, k0, hd, hcase, hexact⟩ := writeUnhintedName_round_trip qn _ wA hwf p (by rw [hB])
+  rw [hB] at hs hf hd
+  simp only at hd
+  obtain ⟨hwB, _, _, _, _, _, hck⟩ := hs.ok p rfl
+  have hcurB : s.cursor ≤ sB.cursor := hf.cur
+  simp only at hck hcurB
+  have hcsB : sB.cursor ≤ sB.octets.size := Nat.le_trans hwB.cur_av hwB.av_size
+  have hcm : ChunkAt (sB.octets.extract 0 sB.cursor) s.cursor (sB.cursor - s.cursor) :=
+    chunkAt_frame hck (fun i _ h2 => extract_prefix_get _ _ hcsB _ (by omega))
+  have hk0 := specDecodeName_chunk hcm hd
+  subst hk0
+  unfold tryPushU16 at hE hF
+  obtain ⟨eE, zE⟩ := tryPush_ok_inv hE
+  obtain ⟨eF, zF⟩ := tryPush_ok_inv hF
+  have hl2 : ∀ x, (u16be x).length = 2 := fun _ => rfl
+  have cC : sC.cursor = sB.cursor := by rw [← hC]
+  have oC : sC.octets = sB.octets := by rw [← hC]
+  have cD : sD.cursor = sB.cursor := by rw [← hD]; split <;> exact cC
+  have oD : sD.octets = sB.octets := by rw [← hD]; split <;> exact oC
+  have cE : sE.cursor = sB.cursor + 2 := by rw [eE]; simp [pushed, hl2, cD]
+  have cF : s'.cursor = sB.cursor + 4 := by rw [eF]; simp [pushed, hl2, cE]
+  have preF : ∀ i, i < sB.cursor → s'.octets[i]? = sB.octets[i]? := by
+    intro i hi
+    rw [eF, pushed_get_lt _ _ _ (by omega), eE, pushed_get_lt _ _ _ (by omega), oD]
+  have tqt : BytesAt s'.octets sB.cursor (u16be qt) := by
+    intro i hi
+    rw [hl2] at hi
+    rw [eF, pushed_get_lt _ _ _ (by omega), eE]
+    have := bytesAt_writeAt sD.octets sD.cursor (u16be qt) zE i (by rw [hl2]; exact hi)
+    show (writeAt sD.octets sD.cursor (u16be qt))[sB.cursor + i]? = _
+    rw [cD] at this ⊢
+    exact this
+  have tqc : BytesAt s'.octets (sB.cursor + 2) (u16be qc) := by
+    intro i hi
+    rw [hl2] at hi
+    rw [eF]
+    have := bytesAt_writeAt sE.octets sE.cursor (u16be qc) zF i (by rw [hl2]; exact hi)
+    show (writeAt sE.octets sE.cursor (u16be qc))[sB.cursor + 2 + i]? = _
+    rw [cE] at this ⊢
+    exact this
+  have hD' := (specDecodeName_iff _ _ _ _ _).mp hd
+  have hszB : (sB.octets.extract 0 sB.cursor).size = sB.cursor := by simp; omega
+  have hagree : ∀ i, i < (sB.octets.extract 0 sB.cursor).size → msg[i]? = (sB.octets.extract 0 sB.cursor)[i]? := by
+    intro i hi
+    rw [hszB] at hi
+    rw [extract_prefix_get _ _ hcsB _ hi, hmsg i (by omega), preF i hi]
+  have hDm : DecodesName msg s.cursor w qn.len (sB.cursor - s.cursor) := ⟨decodes_prefix hagree hD'.1, hD'.2⟩
+  refine ⟨w, sB.cursor - s.cursor, (specDecodeName_iff _ _ _ _ _).mpr hDm, by omega, hcase, hexact, ?_, ?_⟩
+  · rw [show s.cursor + (sB.cursor - s.cursor) = sB.cursor by omega, be16_of_agree hmsg (by omega)]
+    exact be16_of_bytesAt tqt hqt
+  · rw [show s.cursor + (sB.cursor - s.cursor) + 2 = sB.cursor + 2 by omega, be16_of_agree hmsg (by omega)]
+    exact be16_of_bytesAt tqc hqc
 
 end QV.Writer
